@@ -144,7 +144,13 @@ pub fn c04(ctx: &CheckCtx) -> CheckResult {
     run_e2(
         ctx,
         &mut res,
-        &[("lock", set, mode.clone()), ("lock", "poison", mode.clone()), ("atomic", set, Mode { complete: true, ..mode })],
+        &[
+            ("lock", set, mode.clone()),
+            ("lock", "poison", mode.clone()),
+            ("atomic", set, Mode { complete: true, ..mode.clone() }),
+            // every entry point of the integer / bool / pointer atomics raced on one variable
+            ("atomic", if ctx.tier.is_thorough() { "rmw3" } else { "rmw" }, Mode { complete: true, ..mode }),
+        ],
         // atomics: the total-order claim has both directions — every execution is explained by the
         // log order (Sound) and every SC interleaving's outcome is produced (Missing)
         &[VKind::Sound, VKind::Enabled, VKind::Ending, VKind::Abort, VKind::Missing],
